@@ -359,6 +359,26 @@ func checkC04(c *Ctx) {
 	ru4 := c.R.Rule("C04-R4", "heap and index agree: a function that pushes a bucket on the heap also stores it in the index map; a function that pops one also deletes it from the index, in the same iteration", "E10 pairing on paths", 2)
 	push := c.fo(ru4, "container/heap", "Push")
 	pop := c.fo(ru4, "container/heap", "Pop")
+	// the heap's own Push / Pop (its heap.Interface methods) only append / cut the slice: calling them directly
+	// skips the sift that keeps the earliest bucket on top
+	if hi := c.P.Named("container/heap", "Interface"); hi != nil {
+		if it, ok := hi.Underlying().(*types.Interface); ok {
+			for _, f := range c.P.ModFuncs() {
+				if f.Package() == nil || f.Package().Pkg.Path() != c.P.Rel("wasp/expiration") {
+					continue
+				}
+				for _, cl := range core.CallsIn(f) {
+					if cl.Static == nil || cl.Static.Signature.Recv() == nil || (cl.Static.Name() != "Push" && cl.Static.Name() != "Pop") {
+						continue
+					}
+					rt := cl.Static.Signature.Recv().Type()
+					if types.Implements(rt, it) || types.Implements(types.NewPointer(rt), it) {
+						ru4.Fail(fmt.Sprintf("direct call of %s in %s", c.fname(cl.Static), c.fname(f)), c.whereI(cl.Instr), "the heap's own "+cl.Static.Name()+" method is called directly instead of container/heap."+cl.Static.Name()+": the element is not sifted into place, so the sweep no longer sees the earliest deadline first and due entries wait behind later ones")
+					}
+				}
+			}
+		}
+	}
 	if push != nil && pop != nil {
 		for _, f := range c.P.ModFuncs() {
 			if f.Package() == nil || f.Package().Pkg.Path() != c.P.Rel("wasp/expiration") {
